@@ -22,9 +22,13 @@ module N :
 
   val min : coq_N -> coq_N -> coq_N
 
+  val div2 : coq_N -> coq_N
+
   val pos_div_eucl : positive -> coq_N -> coq_N * coq_N
 
   val coq_land : coq_N -> coq_N -> coq_N
+
+  val shiftr : coq_N -> coq_N -> coq_N
 
   val to_nat : coq_N -> nat
 
